@@ -342,6 +342,9 @@ def run():
                "whose last operation changed the structure or was refused")
     if ck.coq_build(["theories/Edit/Corr.v", "theories/Properties/C10.v"]):
         ck.collect_theorems("C10.v")
+    # the repairs committed to /repo are expected to be present: a probe that answers "old variant" is a regression
+    ck.obligations.append(("code-variant:all-repairs-present", all(ec.code_variant()),
+                           "" if all(ec.code_variant()) else "probed (clipfix, selffix, descfix, clipsfix, cachefix) = %r" % (ec.code_variant(),)))
     cases, sizes = gen_cases(ck)
     for k, v in sizes.items():
         ck.count("cases:" + k, v)
